@@ -129,8 +129,11 @@ def count_params(trace_path):
 
 
 def corrupt_pout(ev, rng):
-    """binding self-test for C35: change one answered parameterised outcome"""
-    for po in ev.get("pouts", []):
+    """binding self-test for C35: change one answered parameterised outcome (or, if every parameterised execution of the
+    event was refused, add an answered one that returns a row no query of the fragment returns)"""
+    if ev.get("ev") != "Query" or "pouts" not in ev:
+        return False
+    for po in ev["pouts"]:
         o = po["out"]
         if o.get("res") == "ok":
             if o["rows"]:
@@ -139,7 +142,12 @@ def corrupt_pout(ev, rng):
                 o["rows"].append({"r": [{"k": "I", "n": 7, "s": ""} for _ in o["cols"]], "m": 1})
             ev["_corrupted"] = "pouts/%s/rows/0" % po["pm"]
             return True
-    return False
+    ncol = len(ev["q"]["parts"][0]["clauses"][-1]["items"])
+    ev["pouts"].append({"pm": "selftest", "ptext": "", "np": 0,
+                        "out": {"res": "ok", "msg": "", "cols": ["c"] * ncol, "ord": False, "copies": 1,
+                                "rows": [{"r": [{"k": "S", "n": 0, "s": "z"}] * ncol, "m": 3}]}})
+    ev["_corrupted"] = "pouts/+selftest"
+    return True
 
 
 def shape_stats(trace_path, stats):
